@@ -264,6 +264,7 @@ func main() {
 		if c07Extra != nil {
 			c07Extra(c)
 		}
+		runC07Extra2(c)
 	})
 }
 
